@@ -187,3 +187,7 @@ Fixpoint mono_adds (hi : Z) (ops : list cop) : Prop :=
 
 Definition ops_sum (ops : list cop) : Z :=
   fold_right (fun o a => match o with OpAdd d _ _ => d + a | OpTick => a end) 0 ops.
+
+(* an entry lies inside the window (t1, t2] (instants in ns) *)
+Definition in_window (t1_ns t2_ns : Z) (e : entry) : bool :=
+  (t1_ns <? e_t e * C19_MillisecondNs) && (e_t e * C19_MillisecondNs <=? t2_ns).
